@@ -2643,6 +2643,11 @@ abbrev textAbsorbB := PM.textAbsorbB
 abbrev inlineUniformB := PM.inlineUniformB
 abbrev highClosedKids := PM.highClosedKids
 
+/-- `pairAligned` is the function the driver evaluates (op `deleteApplies`) -/
+theorem pairAligned_eq (doc : Node) (pos : Nat) : pairAligned doc pos = PM.pairAlignedB doc pos := by
+  unfold pairAligned PM.pairAlignedB
+  cases doc.resolve pos <;> rfl
+
 /-- **`delete_applies`** — on a valid document in normal form, for `f ≤ t` both pair-aligned, every step
     `replace_step(doc, f, t, Slice.empty)` emits — `ReplaceStep` from the trivial fit, `ReplaceStep` from the Fitter,
     `ReplaceAroundStep` from the Fitter — **applies**: `Step.apply(doc)` returns a document -/
